@@ -157,7 +157,7 @@ pub fn run(ctx: &Ctx) {
     ctx.set_rule("Packet values generated from a grammar (six kinds; strings empty/ASCII/Unicode/500+ bytes without NUL; 0-6 options with boundary-biased values up to 2^64-1; any block number; payloads 0..65464) compared with an independent RFC encoder/decoder in both directions, plus an exhaustive sweep of all 65536 values through Opcode/ErrorCode conversions and DATA/ACK block numbers. Non-trivial = packet carries an option, a non-empty string or payload (every u16 of the sweep counts); distinct = distinct packet values.");
     ctx.assume("option values are compared as u64; tftpd stores usize, equal on this 64-bit target");
     enumerate_idx(ctx, "exh-u16", 65536, true, |i| U16Case { v: i as u16 }, judge_u16);
-    explore(ctx, "grammar", ctx.tier.pick(150_000, 3_000_000), gen::rpacket, judge_packet);
+    explore(ctx, "grammar", ctx.tier.pick(500_000, 8_000_000), gen::rpacket, judge_packet);
 }
 
 pub fn replay(ctx: &Ctx, part: &str, case: &Value) -> bool {
